@@ -254,6 +254,9 @@ fn exh_size(sub: &str) -> u64 {
         "corrections" => (CORRECTION_CONTEXTS as u64) << 17,
         "flags" => 2 * MISPREDICTION_CONTEXTS as u64,
         "pairs" => 1600,
+        // default runs of length 2^k + {-2..2}, k = 1..18, ended by each kind of operation (x3)
+        // and by nothing (x1)
+        "runs" => 18 * 5 * 4,
         _ => 0,
     }
 }
@@ -271,6 +274,25 @@ fn exh_case(sub: &str, idx: u64, reps: &[CodecOp]) -> Vec<CodecOp> {
         }
         "corrections" => vec![CodecOp::Correction((idx >> 17) as u8, (idx & 0x1ffff) as u32)],
         "flags" => vec![CodecOp::Misprediction((idx / 2) as u8, idx % 2 == 1)],
+        "runs" => {
+            let k = idx / 20 + 1;
+            let off = (idx % 20) / 4;
+            let end = idx % 4;
+            let len = ((1i64 << k) + off as i64 - 2).max(1) as usize;
+            let mut v: Vec<CodecOp> = (0..len)
+                .map(|i| if k % 2 == 0 && i % 2 == 1 { CodecOp::Correction((k % 10) as u8, 0) } else { CodecOp::Misprediction((k % 7) as u8, false) })
+                .collect();
+            match end {
+                0 => {}
+                1 => v.push(CodecOp::Value(0x1234, 16)),
+                2 => v.push(CodecOp::Misprediction(3, true)),
+                _ => v.push(CodecOp::Correction(4, 77)),
+            }
+            if end != 0 {
+                v.push(CodecOp::Value(5, 3));
+            }
+            v
+        }
         _ => vec![reps[(idx / 40) as usize], reps[(idx % 40) as usize]],
     }
 }
@@ -300,7 +322,7 @@ fn worker(ctx: &mut Ctx) {
         Tier::Quick => 200_000u64,
         Tier::Thorough => 3_000_000u64,
     };
-    for sub in ["values", "corrections", "flags", "pairs"] {
+    for sub in ["values", "corrections", "flags", "pairs", "runs"] {
         let total = exh_size(sub);
         let (a, b) = shard_range(total, ctx.cfg.shard, ctx.cfg.nshards);
         exh(ctx, sub, a, b - a);
